@@ -6,7 +6,8 @@ def run(tier):
     c = vlib.Check("C15", tier)
     thorough = tier == "thorough"
     c.rule = ("Bucket shapes (N, newest index, populated count). TLC explores the probe-per-action search on every shape for "
-              "N=1..24 (64 thorough) and exports result/call count/probe sequence per shape; each is replayed through the real "
+              "N=1..24 (64 thorough) and, at N=999, on 63 newest positions x all counts (all 999,000 shapes = 19.7 M states in thorough), and "
+              "exports result/call count/probe sequence per shape for N<=24; each is replayed through the real "
               "rotated search (guarded wrapper). All 999,000 shapes at N=999 are run through the real search and batch-validated by "
               "TLC; the real get_latest_volume runs against the loop-back S3 simulator on boundary and seeded shapes. "
               "Non-trivial: 0 < populated count < N; distinct by shape.")
@@ -15,6 +16,8 @@ def run(tier):
     vlib.build_harness()
     sfx = "_thorough" if thorough else ""
     c.model("MC_Search", "MC_Search" + sfx, actions=("ProbeFirst", "BisectWith", "Rebase", "BinWith"), timeout=1800)
+    # the search machine at the production size: a slice of newest positions (quick) / all 999,000 shapes (thorough)
+    c.model("MC_Search999", "MC_Search999_all" if thorough else "MC_Search999", coverage=False, workers=8, xmx="40g" if thorough else "12g", timeout=3000)
     r = vlib.tlc("Gen_Search", "Gen_Search" + sfx, run_dir=c.run_dir, coverage=False, workers=1, timeout=1800)
     vlib.require_model_ok(r)
     c.states += r.distinct
